@@ -23,6 +23,8 @@ func propC17() *Property {
 			{ID: "C17.R3", Title: "strings are scrubbed and non-empty; text accessors go through GetString", Floor: 7, Run: c17R3},
 			{ID: "C17.R4", Title: "absent vs wrong type; errors come with zero values", Floor: 30, Run: c17R4},
 			{ID: "C17.R5", Title: "single values are promoted to one-element lists", Floor: 1, Run: c17R5},
+			{ID: "C17.R6", Title: "the sanitiser behind GetString filters every rune on every path", Floor: 1, Run: scrubIsTotal},
+			{ID: "C17.R7", Title: "an accessor that reports no error hands out a usable value", Floor: 2, Run: c17R7},
 		},
 	}
 }
@@ -413,8 +415,36 @@ func c17R4(c *Ctx) {
 			c.check(isZeroValue(ret.Results[0]), name+"/return:zero", P.InstrPos(ret), name, "zero value with the error", "a non-zero value is returned together with an error")
 		}
 	}
-	if nInst < 4 {
-		broken("found %d instantiations of getPrimitive, expected at least 4", nInst)
+	c.check(nInst >= 1, "servitor/object.getPrimitive/instantiations", P.Pos(P.Method("servitor/object", "Object", "GetString").Pos()), "servitor/object.getPrimitive", fmt.Sprintf("%d instantiations of getPrimitive analysed", nInst), "no accessor goes through getPrimitive any more")
+	// the document map is read only there: every other accessor obtains its value
+	// from getPrimitive (or from another accessor), so that "missing or null =
+	// absent, other type = wrong type" is decided in one place
+	for _, fn := range P.FuncsIn("servitor/object") {
+		if fn.Origin() != nil && fn.Origin().Name() == "getPrimitive" || fn.Name() == "getPrimitive" {
+			continue
+		}
+		fname := FuncName(fn)
+		eachInstr(fn, func(_ *ssa.BasicBlock, _ int, in ssa.Instruction) {
+			var m ssa.Value
+			switch x := in.(type) {
+			case *ssa.Lookup:
+				m = x.X
+			case *ssa.Range:
+				m = x.X
+			default:
+				return
+			}
+			if !isNamed(m.Type(), "servitor/object", "Object") {
+				if mt, ok := m.Type().Underlying().(*types.Map); !ok || !isAnyMap(mt) {
+					return
+				}
+				// a plain map[string]any that is a converted Object
+				if ct, ok := m.(*ssa.ChangeType); !ok || !isNamed(ct.X.Type(), "servitor/object", "Object") {
+					return
+				}
+			}
+			c.bad(fname+"/reads-document-map", P.InstrPos(in), fname, "an accessor reads the document map itself instead of going through getPrimitive: a JSON null (or a value of another type) is no longer classified as absent (or wrong type) there")
+		})
 	}
 	// other accessors: errors never wrap the 'absent' sentinel except GetString's empty case; errors come with zero values
 	for _, fn := range P.FuncsIn("servitor/object") {
@@ -606,6 +636,42 @@ func c17R5(c *Ctx) {
 			c.check(okS, name+"/return:promoted", P.InstrPos(ret), name, "a single value is promoted to a one-element list holding that value", "the promoted list does not hold exactly the value obtained for the key")
 		default:
 			c.bad(name+"/return:other", P.InstrPos(ret), name, "GetList returns something that is neither the JSON array nor a one-element literal")
+		}
+	}
+}
+
+func isAnyMap(mt *types.Map) bool {
+	k, ok := mt.Key().Underlying().(*types.Basic)
+	if !ok || k.Kind() != types.String {
+		return false
+	}
+	i, ok := mt.Elem().Underlying().(*types.Interface)
+	return ok && i.NumMethods() == 0
+}
+
+// c17R7: "classify every JSON value correctly" includes the converse of R4: an
+// accessor whose result is a pointer returns a non-nil one whenever it returns
+// a nil error, on every path (through its helpers: url.Parse, mime.Parse, …).
+// A helper that can answer (nil, nil) — a remembered failure, say — makes the
+// accessor report success without a value, and the first user dereferences nil.
+func c17R7(c *Ctx) {
+	P := c.P
+	nn := newNonNil(P)
+	for _, fn := range P.FuncsIn("servitor/object") {
+		if fn.Signature.Recv() == nil || fn.Parent() != nil || fn.Synthetic != "" {
+			continue
+		}
+		res := fn.Signature.Results()
+		if res.Len() < 2 || !isErrorType(res.At(res.Len()-1).Type()) {
+			continue
+		}
+		for i := 0; i < res.Len()-1; i++ {
+			if _, isPtr := res.At(i).Type().Underlying().(*types.Pointer); !isPtr {
+				continue
+			}
+			name := FuncName(fn)
+			c.check(nn.producerSound(fn, i), name+"/value-with-nil-error", P.Pos(fn.Pos()), name, "result #"+fmt.Sprint(i)+" is non-nil whenever the error is nil",
+				"the accessor can return a nil "+typeString(res.At(i).Type())+" together with a nil error: success without a value, dereferenced by the first user")
 		}
 	}
 }
